@@ -28,6 +28,13 @@ func init() {
 
 var c11Progs = []string{
 	`a*2+b`,
+	// run-time access to lazy lists whose producers call closures on the stack they are handed
+	`numbers(5).combine((p,q)->p+q*a)[b%4]+numbers(4).number((i,x)->x*a+i)[a%4]`,
+	`numbers(5).map(x->x+a).iir(x->x,(x,l)->l+x)[a%5]+numbers(5).combine3((p,q,r)->p+q+r+b)[1]`,
+	// constant-folded lazy concatenations and stages, iterated at run time without being materialised
+	`let l=[1,2,3].number((i,x)->x+i)+[4,5].combine((p,q)->p+q); l.mapReduce(a,(s,x)->s*2+x)+b`,
+	`let l=[1,2,3].combine((p,q)->p*q)+numbers(3).iir(x->x,(x,o)->o+x); l.reduce((p,q)->p+q*a)+l.map(x->x+b).sum()`,
+	`let l=numbers(4).number((i,x)->i*x); l.visit(a,(v,x)->v+x)+l.present(x->x=b)`,
 	`let l=numbers(5).map(x->x*2); l[a%5]+b`,
 	`let l=numbers(5).map(x->x*2); l.append(a).size()+l[b%5]`,
 	`let l=numbers(4).map(x->x+1); [a] ~ l`,
